@@ -37,7 +37,7 @@ SIMPLE_SALTS = ["s1", "salt", "csdvs887", "", "v2-exp", "HAGFEUAKVDU", "user_exp
 # strings / salts that are perfectly legal DSL content but hostile to naive embedding in generated code: quotes, a trailing
 # backslash, braces (str.format / f-string syntax), percent, compatibility characters (NFKC folds them to ASCII syntax)
 TRICKY_STRS = ["C:\\", "a\\", "\\", "it's", 'say "hi"', "{x}", "{}", "{", "}", "{0}", "%s", "%(a)s", "100%", "tab\there", "\\n",
-               "\uff02q\uff02", "\uff07", "\ufb01", "x\u00b2", "\u2126", "a\rb", "#", "$a", "`a`", "a;b", "\\'", "{{}}", "é", "日本"]
+               "\uff02q\uff02", "\uff07", "\ufb01", "x\u00b2", "\u2126", "a\rb", "#", "$a", "`a`", "a;b", "\\'", "{{}}", "é", "日本", "Washington, DC", "a,b", ", ", "x, y)", "(1, 2)", "1, 2", "[a]", "name='a'", "a\tb", " pad ", "2", "2.0"]
 SALT_TEMPLATES = ["{%s}", "{%s}:v1", "x{%s!r}", "%%(%s)s", "${%s}", "{%s:>4}", "{0}{%s}"]
 
 
